@@ -18,6 +18,7 @@ import (
 	"github.com/spf13/viper"
 	"go.uber.org/zap"
 
+	"github.com/linkedin/Burrow/core"
 	"github.com/linkedin/Burrow/core/protocol"
 	"github.com/linkedin/Burrow/core/verifhook"
 )
@@ -265,6 +266,32 @@ func canonicalBody(body []byte) (errFlag string, canon string) {
 	return errFlag, "kind=plain"
 }
 
+// cfgHasDottedKeys: does any table of the loaded configuration have a key that itself contains a dot (a quoted TOML key
+// such as [notifier."a.extras"])?  viper resolves such keys layer by layer (override, file, defaults); the model carries
+// one merged tree, which is faithful only as long as the layers cannot disagree about where a dotted key lives.
+func cfgHasDottedKeys() bool {
+	dotted := false
+	var walk func(v interface{})
+	walk = func(v interface{}) {
+		if m, ok := v.(map[string]interface{}); ok {
+			for k, e := range m {
+				if strings.Contains(k, ".") {
+					dotted = true
+				}
+				walk(e)
+			}
+		}
+	}
+	tops := map[string]bool{}
+	for _, k := range viper.AllKeys() {
+		tops[strings.SplitN(k, ".", 2)[0]] = true
+	}
+	for top := range tops {
+		walk(viper.Get(top))
+	}
+	return dotted
+}
+
 // cfgLeaves prints the loaded configuration as flattened leaves for the model: path(hex raw keys joined by ".")=kind:value.
 // The raw nested maps are taken per top-level key with viper.Get (AllSettings would re-split and merge keys that
 // themselves contain dots, e.g. [notifier."a.b"]); an empty table is a leaf of kind m.
@@ -274,6 +301,13 @@ func cfgLeaves() string {
 	walk = func(path []string, v interface{}) {
 		switch x := v.(type) {
 		case map[string]interface{}:
+			if len(x) == 0 {
+				out = append(out, strings.Join(path, ".")+"=m:-")
+			}
+			for k, e := range x {
+				walk(append(append([]string{}, path...), hexName(k)), e)
+			}
+		case map[string]string:
 			if len(x) == 0 {
 				out = append(out, strings.Join(path, ".")+"=m:-")
 			}
@@ -308,6 +342,37 @@ func cfgLeaves() string {
 	}
 	for top := range tops {
 		walk([]string{hexName(top)}, viper.Get(top))
+	}
+	// settings that exist only as defaults (SetDefault by a coordinator's or module's Configure) are not part of the raw
+	// maps above: add every key viper knows that no emitted leaf covers
+	have := map[string]bool{}
+	for _, leaf := range out {
+		have[leaf[:strings.IndexByte(leaf, '=')]] = true
+	}
+	covered := func(path string) bool {
+		for h := range have {
+			if h == path || strings.HasPrefix(h, path+".") || strings.HasPrefix(path, h+".") {
+				return true
+			}
+		}
+		return false
+	}
+	defaultKeys := viper.AllKeys()
+	if cfgHasDottedKeys() {
+		defaultKeys = nil // such configurations are served by the HTTP server's own Configure alone (see httpinit)
+	}
+	for _, k := range defaultKeys {
+		parts := strings.Split(k, ".")
+		for i := range parts {
+			parts[i] = hexName(parts[i])
+		}
+		if path := strings.Join(parts, "."); !covered(path) {
+			n := len(out)
+			walk(parts, viper.Get(k))
+			for _, leaf := range out[n:] {
+				have[leaf[:strings.IndexByte(leaf, '=')]] = true
+			}
+		}
 	}
 	sort.Strings(out)
 	if len(out) == 0 {
@@ -407,7 +472,64 @@ func (s *storageRunner) httpStep(r *runner, f []string, line string) bool {
 			s.app.Logger, s.app.LogLevel = zap.NewNop(), &lvl
 			go s.evalPump()
 		}
+		reload := func() {
+			viper.Reset()
+			viper.SetConfigType("toml")
+			_ = viper.ReadConfig(strings.NewReader(unhexName(f[2])))
+			// an embedding application supplies its configuration from code, where a table of strings is naturally a
+			// map[string]string: every second configuration has its notifier section set that way, extras tables as
+			// map[string]string (same content)
+			dotted := false
+			if mods, ok := viper.Get("notifier").(map[string]interface{}); ok {
+				for name := range mods {
+					// (with a dotted module name beside it viper treats a map[string]string as a leaf that shadows the
+					// other module's keys: a resolution rule of the override layer the model does not carry)
+					dotted = dotted || strings.Contains(name, ".")
+				}
+			}
+			if mods, ok := viper.Get("notifier").(map[string]interface{}); ok && len(f[2])%2 == 0 && !dotted {
+				section := map[string]interface{}{}
+				for name, tbl := range mods {
+					t, isTable := tbl.(map[string]interface{})
+					if !isTable {
+						section[name] = tbl
+						continue
+					}
+					nt := map[string]interface{}{}
+					for k, v := range t {
+						nt[k] = v
+						if ex, isMap := v.(map[string]interface{}); isMap && k == "extras" {
+							m, plain := map[string]string{}, true
+							for ek, ev := range ex {
+								sv, isString := ev.(string)
+								plain = plain && isString
+								m[ek] = sv
+							}
+							if plain {
+								nt[k] = m
+							}
+						}
+					}
+					section[name] = nt
+				}
+				viper.Set("notifier", section)
+			}
+		}
+		reload()
 		res := guard(func() string {
+			// the server as Start builds it: every coordinator's real Configure in Start's order (the notifier modules get
+			// their extras, the defaults of every module are set); a configuration another coordinator refuses is served
+			// by the HTTP server's own Configure alone
+			var h http.Handler
+			valid := false
+			if !cfgHasDottedKeys() {
+				h, valid, _ = core.VerifConfigureHTTP(s.app)
+			}
+			if h != nil && valid {
+				s.http = &httpState{handler: h}
+				return "ok"
+			}
+			reload()
 			s.http = &httpState{handler: verifhook.NewHTTPHandler(s.app)}
 			return "ok"
 		})
@@ -510,6 +632,7 @@ func (s *storageRunner) httpStep(r *runner, f []string, line string) bool {
 		req := httptest.NewRequest("GET", "http://burrow.test/metrics", http.NoBody)
 		rec := httptest.NewRecorder()
 		var released time.Time
+		var relDone chan struct{}
 		if f[1] == "scrapeslow" {
 			// S scrapeslow: the same scrape while the storage subsystem takes no request for 3.3 s (its workers are busy):
 			// the scrape waits and then reports what storage holds — it is resolved as a plain scrape
@@ -524,7 +647,9 @@ func (s *storageRunner) httpStep(r *runner, f []string, line string) bool {
 			s.ev.AgeCache(-wait)
 			s.evRef = s.evRef.Add(wait)
 			s.app.StorageChannel <- nil
+			relDone = make(chan struct{})
 			go func() {
+				defer close(relDone)
 				time.Sleep(wait)
 				released = time.Now()
 				s.hold <- struct{}{}
@@ -534,7 +659,10 @@ func (s *storageRunner) httpStep(r *runner, f []string, line string) bool {
 			s.http.handler.ServeHTTP(rec, req)
 			return fmt.Sprintf("code=%d series=%s", rec.Code, parsePromSeries(rec.Body.String()))
 		})
-		if !released.IsZero() {
+		if relDone != nil {
+			// a scrape that did not wait for storage returns early: storage is released all the same before going on, and
+			// the clock value the model is given is the one at the release (when a waiting scrape evaluates)
+			<-relDone
 			now = released.Unix()
 		}
 		time.Sleep(3 * time.Millisecond) // background refreshes of cached errors
